@@ -68,7 +68,7 @@ func (pk *pkgInfo) buildPass(fi *fnInfo, pvs map[string]*pvInfo, discover bool) 
 	for _, r := range trackedResults(sig) {
 		o := sig.Results().At(r.idx)
 		id := -1
-		if o.Name() != "" && o.Name() != "_" && !b.addrTk[o] {
+		if o.Name() != "" && o.Name() != "_" && !b.addrTk[o] && !isBool(o.Type()) {
 			id = b.newVar(o.Name(), o, o.Type(), false)
 		}
 		g.results = append(g.results, id)
@@ -119,7 +119,7 @@ func (pk *pkgInfo) buildPass(fi *fnInfo, pvs map[string]*pvInfo, discover bool) 
 		seen[n] = true
 		n.id = len(g.nodes)
 		g.nodes = append(g.nodes, n)
-		if n.kind == kRet {
+		if n.kind == kRet || n.kind == kHalt {
 			continue
 		}
 		n.s1 = fix(n.s1)
@@ -205,4 +205,3 @@ func threadBools(entry *node) {
 		}
 	}
 }
-
